@@ -478,7 +478,14 @@ func pipeSpecFromInput(input string, dir string) *PipeSpec {
 		Seencheck: atoi("seencheck", 1) == 1, Pool: atoi("pool", 1), MaxRetry: atoi("retry", 1), MaxRedirect: atoi("mr", 3),
 		MaxHops: atoi("maxhops", 0), SchedSeed: sched, IdleMs: 700, TimeoutMs: atoi("timeout", 60000), Async: atoi("async", 0) == 1,
 		RateLimit: atoi("rl", 0) == 1, Proxy: atoi("proxy", 0) == 1, OnDisk: atoi("ondisk", 0) == 1, LocalDedupe: atoi("dedupe", 0) == 1,
-		Footprint: atoi("footprint", 0) == 1, HTTPTimeout: atoi("httpto", 0), DiskLowMs: atoi("disklow", 0), TempInJob: atoi("tempjob", 0) == 1, IncludeHost: kv["inc"]}
+		Footprint: atoi("footprint", 0) == 1, HTTPTimeout: atoi("httpto", 0), DiskLowMs: atoi("disklow", 0), TempInJob: atoi("tempjob", 0) == 1, IncludeHost: kv["inc"], StopSignal: kv["sig"]}
+	if v, ok := kv["discard"]; ok { // discard=404,503 : --warc-discard-status
+		for _, x := range strings.Split(v, ",") {
+			if n, err := strconv.Atoi(x); err == nil {
+				sp.Discard = append(sp.Discard, n)
+			}
+		}
+	}
 	if sp.MaxHops > 0 {
 		sp.IdleMs = 5800 // the queue's producer flushes its batch of outlinks after at most 5 s: quiescence must outlast it
 	}
@@ -549,6 +556,11 @@ func genPipe(r *Rng, i int, tier string) string {
 	}
 	if r.Chance(20) {
 		s += " rl=1"
+	}
+	if r.Chance(15) {
+		// the second WARC client (--proxy): challenge pages the discard policy rejects, hang-ups and truncated bodies make its
+		// writer report on its error channel, which somebody has to drain or the seed never leaves the archiver
+		s += " proxy=1"
 	}
 	return s
 }
